@@ -84,6 +84,9 @@ def run_check(prop, tier, seed, a, t0):
     os.makedirs("evidence", exist_ok=True)
     os.makedirs(os.path.join("replays", prop), exist_ok=True)
     smtdir = os.path.join("build", "smt", prop)
+    static = None
+    if prop == "C20":
+        static = run_resolver(prop, known, violations, known_lines)
     # ------------------------------------------------------------------ proof phase
     contracts = [c for c in ix.by_key.values() if prop in c.props and not c.trusted]
     if a.only:
@@ -175,6 +178,15 @@ def run_check(prop, tier, seed, a, t0):
             notes.append("no ledger entry for %s" % prop)
     if contracts and n_obl == 0 and not any(u.error for u in units):
         checker_failure.append("zero obligations generated")
+    if static is not None:
+        n_obl += static["obligations"]
+        n_proved += static["discharged"]
+        by_backend["scope-resolver"] = static["discharged"]
+        samples += static["samples"]
+        functions += static["functions"]
+        assumptions |= set(static["assumptions"])
+        if static["obligations"] == 0:
+            checker_failure.append("resolver generated zero obligations")
     # ------------------------------------------------------------------ bounded stand-in
     bounded = None
     bpath = os.path.join(ROOT, "bounded", "%s.py" % prop)
@@ -222,6 +234,55 @@ def run_check(prop, tier, seed, a, t0):
     if undecided:
         return 2
     return 0
+
+
+# --------------------------------------------------------------------------- C20: static resolver
+def run_resolver(prop, known, violations, known_lines):
+    from pyvc import resolver
+    obs, fails, w = resolver.check(REPO)
+    kinds = {}
+    for o in obs:
+        kinds[o["kind"]] = kinds.get(o["kind"], 0) + 1
+    for f in fails:
+        key = "%s %s %s" % (f["kind"], f["where"], f["what"])
+        k = match_known(known, prop, key)
+        if k is not None:
+            known_lines.append("KNOWN-FINDING: property=%s %s" % (prop, k["what"]))
+            continue
+        confirm = confirm_name_failure(f)
+        rel = os.path.join("replays", prop, hashlib.sha1(key.encode()).hexdigest()[:12] + ".json")
+        with open(os.path.join(ROOT, rel), "w") as fh:
+            json.dump({"property": prop, "obligation": key, "detail": f["detail"], "replay": confirm}, fh, indent=1)
+        line = "VIOLATION property=%s replay=%s" % (prop, os.path.join(ROOT, rel))
+        if not confirm.get("violates"):
+            line += " obligation=%s no-failing-input-found" % key.replace(" ", "_")
+        violations.append({"line": line, "obligation": key})
+    mods = sorted(w.mods)
+    return {"obligations": len(obs), "discharged": len(obs) - len(fails),
+            "samples": [{"obligation": "%s %s %s" % (o["kind"], o["where"], o["what"]), "verdict": "resolved"} for o in obs[:3] + obs[-3:]],
+            "functions": [{"file": "lena/**/*.py", "function": "every function, method, class body and module body of %d modules" % len(mods),
+                           "tier": "P (static scope resolution, finite and complete)", "obligations": len(obs), "by_kind": kinds}],
+            "assumptions": ["symtable / ast scoping semantics of CPython 3.12", "python-2 compatibility branches folded as on python 3",
+                            "names injected through globals()[name] (flow/zip.py) and attribute errors on instances are excluded",
+                            "module-scope use-before-definition order is not analysed"]}
+
+
+def confirm_name_failure(f):
+    """native confirmation of a failed name obligation in a fresh interpreter"""
+    if f["kind"] == "all":
+        code = "from %s import *" % f["where"]
+    elif f["kind"] == "global":
+        mod = f["where"].split(":")[0]
+        code = ("import builtins, importlib; m = importlib.import_module(%r); "
+                "assert hasattr(m, %r) or hasattr(builtins, %r), 'unbound at run time'" % (mod, f["what"], f["what"]))
+    else:
+        mod = f["where"].split(":")[0]
+        sub = ".".join(mod.split(".")[:2])
+        code = "import %s\nimport lena\n%s" % (sub, f["what"])
+    env = dict(os.environ)
+    env["PYTHONPATH"] = REPO
+    p = subprocess.run([VENV_PY, "-W", "ignore", "-c", code], capture_output=True, text=True, env=env)
+    return {"violates": p.returncode != 0, "code": code, "stderr": p.stderr.strip().split("\n")[-1] if p.stderr else ""}
 
 
 # --------------------------------------------------------------------------- failures
